@@ -232,19 +232,31 @@ example (k v : V) : bindNames [0, 1] (V.list [k, v] Sep.space) = [(0, k), (1, v)
 example : bindNames [0, 1, 2] (V.list [V.num 1 KU.none] Sep.space) = [(0, V.num 1 KU.none), (1, V.null), (2, V.null)] := rfl
 example : bindNames [0, 1] (V.str ['a']) = [(0, V.str ['a']), (1, V.null)] := rfl
 
-/-- the `@each` statement: items of the value, in order; afterwards the loop variables'
-previous local values are restored -/
+/-- the `@each` statement: the items of the value, in order -/
 theorem each_step (n : Nat) (names : List Nat) (e : Expr) (body k : List Stmt) (st : St) (v : V)
     (he : eval st.env e = .ok v) :
     exec (n + 1) (Stmt.each names e body :: k) st
-      = exec n (Stmt.eachNext names (items v) body :: Stmt.restore (st.env.store names) :: k) st := by
+      = exec n (Stmt.eachNext names (items v) body :: k) st := by
   simp [exec, he]
 
+/-- each round runs the body in a fresh sub-scope holding the destructured variables, and
+leaves it before the next item (so the variables are local to the loop) -/
 theorem eachNext_step (n : Nat) (names : List Nat) (v : V) (vs : List V) (body k : List Stmt) (st : St) :
     exec (n + 1) (Stmt.eachNext names (v :: vs) body :: k) st
-      = exec n (body ++ Stmt.eachNext names vs body :: k)
-          { st with env := st.env.defineAll (bindNames names v) } := by
+      = exec n (body ++ Stmt.pop :: Stmt.eachNext names vs body :: k)
+          { st with env := Env.defineAll ([] :: st.env) (bindNames names v) } := by
   simp [exec]
+
+theorem eachNext_done (n : Nat) (names : List Nat) (body k : List Stmt) (st : St) :
+    exec (n + 1) (Stmt.eachNext names [] body :: k) st = exec n k st := by
+  simp [exec]
+
+/-- an assignment inside a loop body updates the variable of the enclosing scope that
+declares it (it is still there after the loop's scope is left) -/
+example : run 50 [Stmt.assign 0 (.lit (.num 0 KU.none)),
+      Stmt.forr 1 (.lit (.num 1 KU.none)) (.lit (.num 3 KU.none)) true [Stmt.assign 0 (.add (.var 0) 2)],
+      Stmt.decl 0 (.var 0)]
+    = .ok [(0, .num 6 KU.none)] := by rfl
 
 /-! ### `@while` -/
 
@@ -338,7 +350,6 @@ theorem exec_mono_succ : ∀ (n : Nat) (k : List Stmt) (st r : St),
           · simp only [hv, if_true] at h ⊢; exact ih _ _ _ h
           · simp only [hv] at h ⊢; exact ih _ _ _ h
       | pop => simp only [exec] at h ⊢; exact ih _ _ _ h
-      | restore saved => simp only [exec] at h ⊢; exact ih _ _ _ h
 
 theorem exec_mono (n m : Nat) (k : List Stmt) (st r : St) (hnm : n ≤ m)
     (h : exec n k st = .ok r) : exec m k st = .ok r := by
